@@ -23,15 +23,16 @@ def datalinesToSemiLoop : Nat → Prog Unit
       else pure ()
     | none => pure ()
 
-def datalinesBodyLoop (ending : List Char) : Nat → Prog Unit
-  | 0 => abort "fuel:lex_datalines(2)"
+/-- returns whether the full ending was found (`terminated`) -/
+def datalinesBodyLoop (ending : List Char) : Nat → Prog Bool
+  | 0 => do abort "fuel:lex_datalines(2)"; pure true
   | f + 1 => do
     let r ← rest
     match r.head? with
     | some '\n' => do advance_; addLine; datalinesBodyLoop ending f
     | some ';' | none =>
-      if utf8Len r < ending.length then emitError .UnterminatedDatalines
-      else if r.take ending.length == ending then pure ()
+      if utf8Len r < ending.length then do emitError .UnterminatedDatalines; pure false
+      else if r.take ending.length == ending then pure true
       else do advance_; datalinesBodyLoop ending f
     | some _ => do advance_; datalinesBodyLoop ending f
 
@@ -50,10 +51,10 @@ def lexDatalines (cfg : Cfg) (is4 : Bool) : Prog Bool := do
   emitD .DatalinesStart
   startToken
   let ending : List Char := if is4 then [';', ';', ';', ';'] else [';']
-  datalinesBodyLoop ending (← fuelOfRest)
+  let terminated ← datalinesBodyLoop ending (← fuelOfRest)
   emitD .DatalinesData
   startToken
-  advanceBy ending.length
+  if terminated then advanceBy ending.length else eatWhile (· == ';')
   emitD .SEMI
   pure true
 
@@ -148,7 +149,9 @@ def dispatchModeDefault (cfg : Cfg) (c : Char) : Prog Unit := do
     else if isUnicodeNameStart n then lexMacroIdentifier cfg true
     else do advance_; emitD .PERCENT; setPending true
   else if isAsciiDigit c then do lexNumericLiteral cfg false; setPending true
-  else if isUnicodeNameStart c then do lexIdentifier cfg; setPending true
+  else if isUnicodeNameStart c then
+    lexIdentifier cfg
+    setPending (!((← lastTokTy) == some .SEMI))
   else
     lexSymbols cfg c
     match (← lastTokTy) with
